@@ -20,6 +20,23 @@ def check(run):
         run.mutant("Signing", f"Signing_mut_{m}.cfg", expect=exp, timeout=600)
     r = run.tlc("Signing", "Signing_files_quick.cfg" if quick else "Signing_files_thorough.cfg", raw_cases=True, expect_cases=True, timeout=3000)
     c09.report(run, se.replay(run, r, stress=True), "C08")
+    # the interactive modify-metadata loop (Modify.tla): load -> edit thresholds / add signatures -> write, through scripted input
+    import os
+    from .. import modify_engine
+    run.mutant("Modify", "Modify_mut_no_copy.cfg", expect="OriginalUntouched", timeout=300)
+    rm = run.tlc("Modify", "Modify_quick.cfg" if quick else "Modify_thorough.cfg", expect_cases=True, timeout=1800, workers=8)
+    wd = os.path.join(run.scratch, "modify")
+    os.makedirs(wd, exist_ok=True)
+    cases = rm.cases if quick else rm.cases[::4]
+    for idx, case in enumerate(cases):
+        probs = modify_engine.replay_script(case, run.seed, idx, wd)
+        run.evaluations += 1
+        run._distinct.add("mod%d" % idx)
+        if not probs:
+            run.traces_validated += 1
+        for p in probs:
+            run.violation("modify-metadata loop: " + p.split(" {")[0].split(" [")[0][:120], {"kind": "modify", "case": case, "problem": p})
+    run.extra["modify_scripts_replayed"] = len(cases)
     run.exhaustive = True
 
 
